@@ -90,8 +90,11 @@ def _materialise(ws, files):
         ws.write(k, v)
 
 
+KF5_MARKER = 'kf5-marker.txt'
+
+
 def observe(files):
-    """-> dict(exit, out, err, exception, timed_out, root)"""
+    """-> dict(exit, out, err, exception, timed_out, marker: was the file KF5_MARKER made in the home directory)"""
     if signal.getsignal(signal.SIGALRM) is None:
         # inside a libFuzzer campaign SIGALRM belongs to a handler Python does not know; the driver restores the
         # handler it found, which must be one Python can name
@@ -101,10 +104,13 @@ def observe(files):
             _materialise(ws, files)
             r = driver.run_inproc(ws, ['t.case'], timeout_s=timeout)
             root = ws.root
+            marker = os.path.exists(os.path.join(ws.home, KF5_MARKER))
         if not r.timed_out:
             break
-    return {'exit': r.exit_code, 'out': r.out, 'err': r.err.replace(root, '<WS>'), 'exception': r.exception,
-            'timed_out': r.timed_out}
+    # (the name of the sandbox directory is random: two runs of the same text must give the same report)
+    err = re.sub(r'<WS>/tmproot/exactly-[A-Za-z0-9_]{8}', '<WS>/tmproot/<SDS>', r.err.replace(root, '<WS>'))
+    return {'exit': r.exit_code, 'out': r.out, 'err': err, 'exception': r.exception,
+            'timed_out': r.timed_out, 'marker': marker}
 
 
 def _short(obs):
@@ -210,6 +216,19 @@ def _is_kf5(files, name):
     without['t.case'] = '\n'.join('' if ph == 'cleanup' else l for l, ph in zip(lines, phases)) + '\n'
     obs = observe(without)
     ident = ident_of(obs)
+    if obs['exception'] and not obs['timed_out'] and ident in ('HARD_ERROR', 'FAIL', 'XFAIL') \
+            and classify_escaped(without, obs) in ('KF-C18-8', 'KF-C18-11'):
+        # the earlier failure is reported by its verdict only: its explanation is lost to another known finding
+        # (the report printer gives up on a huge number / a deep structure), so the place of the failure is not
+        # printed.  Second model: an instruction put directly behind every `def` of the name is never executed.
+        probed = []
+        for l, ph in zip(lines, phases):
+            probed.append('' if ph == 'cleanup' else l)
+            if ph not in (None, 'cleanup') and def_re.match(l):
+                probed.append('$ echo reached > {HOME}/' + KF5_MARKER)
+        obs2 = observe(dict(files, **{'t.case': '\n'.join(probed) + '\n'}))
+        return (not obs2['timed_out'] and not obs2['marker'] and ident_of(obs2) == ident
+                and not inc_defines)
     if obs['exception'] or obs['timed_out']:
         return False
     if ident == 'INTERNAL_ERROR':
